@@ -1,10 +1,10 @@
 package rules
 
 import (
-	"go/constant"
-	"go/types"
 	"fmt"
+	"go/constant"
 	"go/token"
+	"go/types"
 	"strings"
 
 	"golang.org/x/tools/go/ssa"
